@@ -43,6 +43,8 @@ type State struct {
 	events  []Event
 	ghost   map[string]Value // engine-side per-path variables (monitors)
 	notes   []string
+	traceOn bool // trace mode (C10): record lock / map events
+	thread  int  // current thread of trace mode
 }
 
 type nondetRec struct {
@@ -55,6 +57,7 @@ type nondetRec struct {
 
 func (st *State) clone() *State {
 	n := &State{heap: make(map[int]*Obj, len(st.heap)), globals: st.globals, nextObj: st.nextObj}
+	n.traceOn, n.thread = st.traceOn, st.thread
 	n.events = append([]Event(nil), st.events...)
 	n.notes = append([]string(nil), st.notes...)
 	if st.ghost != nil {
